@@ -19,7 +19,8 @@ EXTENDS Integers, Sequences, FiniteSets, TLC, Json
 CONSTANTS Formats,     \* subset of DOMAIN Cap
           NSet,        \* bead counts
           MaxFrames,   \* frames written per file session
-          Pids,        \* payload ids (0 small, 1 field-width extremes, >=2 scrambled)
+          Pids,        \* payload ids (0 small, 1 field-width extremes, 2..50 scrambled,
+                       \* 99 "large frame": cheap function of the bead index, neighbours differ)
           MaxFiles,    \* file sessions per behaviour
           ExtraNext,   \* RNext calls after the end of the file
           Emit
@@ -115,6 +116,7 @@ Pick(lo, hi, p, i, c, kind, s) ==
                      IN CASE sel = 0 -> hi   [] sel = 1 -> lo     [] sel = 2 -> 0
                           [] sel = 3 -> 1    [] sel = 4 -> -1     [] sel = 5 -> hi - 1
                           [] OTHER -> lo + 1
+  ELSE IF p = 99 THEN Clamp(lo, hi, ((i * 7 + c * 3331 + kind * 977 + s) % 19999) - 9999)
   ELSE lo + ((Hash(p, i, c, kind, s) * 9973 + i * 31 + c * 17) % (hi - lo + 1))
 
 PosK(f, p, i, c, s) == Pick(Cap[f].pmin, Cap[f].pmax, p, i, c, 0, s)
